@@ -231,6 +231,42 @@ class LenClass:
                                                "axis (x * v[:, None] or (x.T * v).T aligns it with the events)"))
                 return
 
+    def _size_test(self, c: Node, depth=0):
+        """the comparison node if the condition tests the NUMBER of events of a per-event array against something other
+        than emptiness (size == 1, len(x) > 100, ...): what an event gets then depends on how many events are evaluated
+        with it.  Emptiness tests (== 0, < 1, > 0, truthiness, 0 in shape) are guards and return None."""
+        if depth > 6:
+            return None
+        if c.op in ("UnaryOp", "BoolOp"):
+            for a in c.args:
+                r = self._size_test(a, depth + 1)
+                if r is not None:
+                    return r
+            return None
+        if c.op != "Compare" or len(c.args) != 2:
+            return None
+        for x, k in ((c.args[0], c.args[1]), (c.args[1], c.args[0])):
+            sized = x
+            if x.op == "Call" and x.args and x.args[0].op == "Ext" and x.args[0].attr in ("numpy.size", "builtins.len") \
+                    and len(x.args) >= 2:
+                sized = self.mk_len(x.args[1])
+            cls = self.count_of(sized) if sized is not None else None
+            if cls is None or not (is_def(cls) or cls[0] == "ROWS"):
+                continue
+            if k.op == "Const" and isinstance(k.attr, (int, float)) and not isinstance(k.attr, bool):
+                kv = k.attr
+                flip = x is c.args[1]
+                op = c.attr
+                if flip:
+                    op = {"Lt": "Gt", "Gt": "Lt", "LtE": "GtE", "GtE": "LtE"}.get(op, op)
+                empty_test = (kv == 0 and op in ("Eq", "NotEq", "Gt", "LtE", "In", "NotIn")) or \
+                    (kv == 1 and op in ("Lt", "GtE"))
+                return None if empty_test else c
+        return None
+
+    def mk_len(self, x: Node):
+        return self.I.mk("Len", (x,)) if hasattr(self, "I") and self.I is not None else None
+
     def count_of(self, n: Node) -> Optional[tuple]:
         """class whose size n denotes: len(x), x.size, x.shape[0], x.shape"""
         if n.op == "Len":
@@ -294,6 +330,18 @@ class LenClass:
                 return self.of(b)
             if b.op == "Const" and b.attr is None:
                 return self.of(a)
+            # the decision itself is part of how the value is made: a test on one position of a per-event array
+            # (x[0] == x[-1]) couples every event of the batch (or buffer chunk) to those positions
+            n_pos = len(self.positional)
+            self.of(n.args[0])
+            if len(self.positional) > n_pos:
+                self.decided_by_position = getattr(self, "decided_by_position", [])
+                self.decided_by_position.append((n, self.positional[n_pos][0]))
+            sz = self._size_test(n.args[0])
+            if sz is not None:
+                if not hasattr(self, "size_decisions"):
+                    self.size_decisions = []
+                self.size_decisions.append((n, sz))
             ca, cb = self.of(a), self.of(b)
             if ca == cb:
                 return ca
